@@ -224,7 +224,7 @@ pub fn run(ctx: &Ctx, st: &mut Stats) {
         let t = bts_ref[(i as usize) % bts_ref.len()];
         st.eval(&C::ab(K::Pair, n, t), check);
     });
-    let nr = ctx.tier.pick(2_000, 2_000_000, 40_000_000);
+    let nr = ctx.tier.pick(2_000, 2_000_000, ctx.big(40_000_000, 300_000_000));
     ctx.par(st, "dates x random-times", false, 0, nr, |st, _, rng| {
         let n = rng.range_i64(MIN_DAY as i64, MAX_DAY as i64);
         let t = rng.range_i64(0, DAY_US - 1);
@@ -269,7 +269,7 @@ pub fn run(ctx: &Ctx, st: &mut Stats) {
     }
     st.mark_exhaustive("hms-validity-grid", "hour {0,1,11,12,23,24,25,100,2^31,MAX} x minute/second {0,1,30,59,60,61,2^31,MAX} x usec {0,1,999999,1000000,1000001,86400000,2^31,MAX-1,MAX}");
     // ordering / hashing
-    let np = ctx.tier.pick(2_000, 500_000, 5_000_000);
+    let np = ctx.tier.pick(2_000, 500_000, ctx.big(5_000_000, 50_000_000));
     ctx.par(st, "order/timestamp-pairs", false, 0, np, |st, _, rng| {
         let a = rng.range_i64(TS_MIN, TS_MAX);
         let b = match rng.below(5) {
